@@ -22,11 +22,13 @@ def render(case, c):
     gen = p.get("gen", False)
     G = "<G: Send + Sync + 'static>" if gen else ""
     garg, gval = (", _g: G", ", 7u8") if gen else ("", "")
+    if p.get("refarg"):
+        garg, gval = ", _s: &str", ', "k"' 
     if kind in ("fn", "mod"):
         fns = []
         for k in range(1, depth + 1):
             if k < depth:
-                deps, body = f"deps: &(impl T{k + 1}{extra})", f"deps.f{k + 1}(x + 1){aw}"
+                deps, body = f"deps: &(impl T{k + 1}{extra})", f"deps.f{k + 1}(x + 1{', _s' if p.get('refarg') else ''}){aw}"
             else:
                 deps, body = f"deps: &(impl Sync{extra})", workbody
             if kind == "fn":
